@@ -213,6 +213,28 @@ where
             if a.n() != N {
                 return Err("C09: public key atoms do not have N entries".into());
             }
+            if inst % 2 == 1 {
+                // a second key that shares both generators with the first and differs in every Y: its
+                // parameters are read right after the first key's (the view of a key is a function of
+                // that key, whatever was asked before)
+                let _first = G::key_params(kp.public_key());
+                let t = trace(kp.public_key())?;
+                let mut bytes = t.bytes.clone();
+                for i in 0..N {
+                    for half in ["y1s", "y2s"] {
+                        let at = t.by_fpath(&format!("{}/[{}]", half, i));
+                        if at.len() != 1 {
+                            return Err("C09: public key layout".into());
+                        }
+                        let alt = crate::wire::alt_valid(at[0].kind, t.atom_bytes(at[0]), &mut rng).ok_or("C09: no alternative point")?;
+                        bytes[at[0].offset..at[0].offset + at[0].len].copy_from_slice(&alt);
+                    }
+                }
+                let pk2: PublicKey<N> = dec(&bytes)?;
+                let a2 = PkAtoms::from_value(&pk2)?;
+                let (h, gs) = G::key_generators(&a2);
+                return Ok(Params { params: G::key_params(&pk2), h, gs, dlogs: None });
+            }
             let (h, gs) = G::key_generators(&a);
             Ok(Params { params: G::key_params(kp.public_key()), h, gs, dlogs: None })
         }
@@ -323,6 +345,15 @@ where
         // the map itself, and the original opening
         let Some((com, _reference)) = cx.commit_check(c, &m, &r, "original") else { continue };
         cx.opening_check(c, &com, &m, &r, "original-opening", "open/original", Some(true));
+        // the negated opening opens the negated commitment, not this one (unless the commitment is the identity)
+        {
+            let mut mn = m;
+            for x in mn.iter_mut() {
+                *x = -*x;
+            }
+            let rn = -r;
+            cx.opening_check(c, &com, &mn, &rn, "negated-opening", "open/negated", None);
+        }
         if bfc == 3 && (mi == 4 || mi == 5) {
             c.sample(json!({"kind": "opening", "group": G::NAME, "N": N, "source": source, "message_classes": mname,
                             "blinding_factor_class": SC_NAMES[bfc], "commitment": hex(&com.to_element().to_wire()),
